@@ -10,6 +10,7 @@ import (
 	"os"
 	"reflect"
 	"strings"
+	"time"
 )
 
 // Case is one replay case: an entry, its concrete arguments and the solver's assignment.
@@ -210,10 +211,23 @@ func Main(entries map[string]any) {
 	}
 	enc := json.NewEncoder(os.Stdout)
 	for i := range cases {
-		o := RunCase(entries, &cases[i])
-		enc.Encode(o)
+		// each case has its own time allowance, so that a hang is blamed on the case that hangs
+		// and not on whichever case happened to be running when a shared allowance ran out
+		done := make(chan *Outcome, 1)
+		go func() { done <- RunCase(entries, &cases[i]) }()
+		select {
+		case o := <-done:
+			enc.Encode(o)
+		case <-time.After(CaseTimeout):
+			enc.Encode(&Outcome{Entry: cases[i].Entry, Panic: "timed out: the case alone ran for " + CaseTimeout.String()})
+			os.Exit(3) // the goroutine cannot be stopped; the caller continues with the next case
+		}
 	}
 }
+
+// CaseTimeout is the native time allowance of one replayed case (a parse of the inputs used here
+// takes microseconds to, for the long-input layer, about a second).
+var CaseTimeout = 45 * time.Second
 
 func RunCase(entries map[string]any, c *Case) (o *Outcome) {
 	o = &Outcome{Entry: c.Entry}
